@@ -304,6 +304,77 @@ def structural(chk, shp):
     return n
 
 
+# scalar parameter and return classes: definitions, prototyped calls, calls through pointers, unprototyped-style (variadic) calls.
+# (type spelling, class in a signature, class after the default argument promotions, value expression)
+SCALARS = [
+    ('char', 'w', 'w'), ('signed char', 'w', 'w'), ('unsigned char', 'w', 'w'), ('short', 'w', 'w'), ('unsigned short', 'w', 'w'), ('_Bool', 'w', 'w'),
+    ('int', 'w', 'w'), ('unsigned', 'w', 'w'), ('enum se', 'w', 'w'), ('enum sel', 'l', 'l'), ('long', 'l', 'l'), ('unsigned long', 'l', 'l'), ('long long', 'l', 'l'),
+    ('unsigned long long', 'l', 'l'), ('float', 's', 'd'), ('double', 'd', 'd'), ('int *', 'l', 'l'), ('void *', 'l', 'l'), ('const char *const', 'l', 'l'),
+    ('sfn *', 'l', 'l'), ('sfn', 'l', 'l'), ('sarr', 'l', 'l'), ('struct sinc *', 'l', 'l'), ('int (*)[3]', 'l', 'l'), ('sarr *', 'l', 'l'), ('__builtin_va_list *', 'l', 'l'),
+]
+SCALAR_PRE = 'enum se { SE0, SE1 }; enum sel { SEL0 = 0x100000000 }; typedef int sfn(int); typedef int sarr[3]; struct sinc;\nint sv(int, ...);\n'
+
+
+def scalar_signatures(chk):
+    """The class of every scalar parameter, argument and result in the IL equals the class the C type has after adjustment
+    (6.7.6.3p7-8) resp. after the default argument promotions (6.5.2.2p6-7), in definitions, calls and calls through pointers."""
+    src = [SCALAR_PRE]
+    for i, (t, cls, pcls) in enumerate(SCALARS):
+        src.append('typedef typeof(%s) sty%d;\n' % (t, i))
+        ty = 'sty%d' % i
+        ret = ty if t not in ('sfn', 'sarr') else 'long'      # functions cannot return functions or arrays
+        src.append('%s sd%d(%s);\n' % (ret, i, ty))                                                    # prototype only
+        src.append('%s sk%d(long pad, %s a) { (void)a; return sd%d(a); }\n' % (ret, i, ty, i))         # definition + prototyped call
+        src.append('%s sp%d(%s (*fp)(%s), %s a) { return fp(a); }\n' % (ret, i, ret, ty, ty))          # call through a pointer
+        src.append('int sq%d(%s a) { return sv(1, a); }\n' % (i, ty))                                  # variable argument: promoted class
+    unit = ''.join(src)
+    n = 0
+    srv = fs.server('fs')
+    for t in TARGETS:
+        r = srv.compile(unit, target=t, cpu_s=30)
+        if r.status != 0:
+            chk.violation('signature/unit-rejected', 'scalar signature unit rejected for %s: %s' % (t, r.err[:200]), files={'input.c': unit.encode()})
+            continue
+        m = ilparse.parse(r.out)
+        fn = {f.name: f for f in m.funcs}
+
+        def calls(f):
+            return [i for b in f.blocks for i in b.insts if i.op == 'call']
+        for i, (ty, cls, pcls) in enumerate(SCALARS):
+            rcls = cls if ty not in ('sfn', 'sarr') else 'l'
+            probs = []
+            k = fn.get('$sk%d' % i)
+            if k is None:
+                probs.append('definition sk%d missing' % i)
+            else:
+                n += 4
+                if k.retty != rcls:
+                    probs.append('definition returns class %s, expected %s' % (k.retty, rcls))
+                if [p[0] for p in k.params] != ['l', cls]:
+                    probs.append('definition has parameter classes %r, expected %r' % ([p[0] for p in k.params], ['l', cls]))
+                c = calls(k)
+                if len(c) != 1 or c[0].cls != rcls or [a[0] for a in c[0].callargs] != [cls]:
+                    probs.append('prototyped call is %r -> %r, expected [%r] -> %r' % ([a[0] for a in c[0].callargs] if c else None, c[0].cls if c else None, cls, rcls))
+            p = fn.get('$sp%d' % i)
+            if p is not None:
+                n += 2
+                c = calls(p)
+                if [x[0] for x in p.params] != ['l', cls] or len(c) != 1 or c[0].cls != rcls or [a[0] for a in c[0].callargs] != [cls]:
+                    probs.append('call through pointer: parameters %r, call %r -> %r; expected argument %r, result %r' % (
+                        [x[0] for x in p.params], [a[0] for a in c[0].callargs] if c else None, c[0].cls if c else None, cls, rcls))
+            q = fn.get('$sq%d' % i)
+            if q is not None:
+                n += 1
+                c = calls(q)
+                if len(c) != 1 or [a[0] for a in c[0].callargs] != ['w', pcls] or c[0].vararg_at != 1:
+                    probs.append('variable argument passed as %r (marker at %r), expected [w, %s] with the marker after the first' % (
+                        [a[0] for a in c[0].callargs] if c else None, c[0].vararg_at if c else None, pcls))
+            for pr in probs:
+                chk.violation('signature/scalar-class/%s' % ty.replace(' ', '-'), 'type %s on %s: %s' % (ty, t, pr), files={'input.c': unit.encode()},
+                              cmd='$CPROC_QBE -t %s input.c | grep -n "s[kpq]%d"' % (t, i))
+    return n
+
+
 def main(chk):
     shp = shapes(chk.quick)
     dyn = list(shp) + [('x', k) for k in CUSTOM]
@@ -366,8 +437,10 @@ def main(chk):
     for name, verdict, info, srcs in fs.pimap(_job, jobs2):
         report(name, verdict, info, srcs, True)
     nstruct = structural(chk, shp)
+    nscalar = scalar_signatures(chk)
     cov = {
-        'evaluations': nlines + nstruct,
+        'evaluations': nlines + nstruct + nscalar,
+        'scalar_signature_checks': nscalar,
         'distinct_nontrivial': len(shp),
         'rule': 'all structs with <= 3 fields over {char, short, int, long, float, double, char[3], float[2], struct{int;float}} and all 2-member unions: '
                 'make/sum/pass functions defined on both sides and called across the compiler boundary in both directions; ladders of 0-7 long and 0-9 double parameters before the aggregate; '
@@ -384,4 +457,6 @@ def main(chk):
     return chk.finish(cov, [
         'dynamic check on x86_64 SysV only (no aarch64/riscv64 execution possible); IL executed under il2c, aggregate types rebuilt from the emitted descriptors',
         'structural check: natural-alignment layout of the enumerated shapes is the same on all three targets',
+        'scalar classes: this cproc passes every sub-word integer as w (the callee narrows on entry, the caller extends the result); the table is '
+        'w for integers up to int, l for 64-bit integers and pointers (also adjusted array and function parameters), s and d; promoted float is d',
     ])
